@@ -51,45 +51,60 @@ LINKED = {
 }
 
 
+# the same program names written twice: the second time an imported module has another interface (and its importers follow)
+LINKED_TWICE = {
+    "chain-2-leaf-gets-a-parameter": ("chain-2", {"leaf": "function lf(int a, int b) -> int { return a + b; }\nfunction other(int a) -> int { return a; }\n",
+                                                  "mid": 'import "leaf";\nfunction md(int a) -> int { return lf(a, 1) * 2 + other(a); }\n'}),
+    "diamond-leaf-renamed": ("diamond", {"leaf": "function lg(float x) -> float { return x * 0.5; }\nfunction lg(int a) -> int { return a + 1; }\n",
+                                         "ma": 'import "leaf";\nfunction fa(int a) -> int { return lg(a); }\n', "mb": 'import "leaf";\nfunction fb(float x) -> float { return lg(x); }\n'}),
+}
+
+
 def w_linked(job):
     """Modules are compiled in dependency order, stored, and the root is linked through its imports; every function of the linked
     program is then checked against THAT program (a call must name one of its functions, with the same number of arguments)."""
     from nsl import LinearIR as L
     from .. import irwf as W
     name, opt = job
-    mods, root = LINKED[name]
+    second = None
+    if name in LINKED_TWICE:
+        base, second = LINKED_TWICE[name]
+        mods, root = LINKED[base]
+    else:
+        mods, root = LINKED[name]
     fails, n = [], 0
     d = tempfile.mkdtemp(prefix="nslmc-c14-", dir=snapshot._tmp_root())
     old = os.getcwd()
     try:
         os.chdir(d)
-        done = set()
-        order = []
-        while len(order) < len(mods):          # dependency order: a module after everything it imports
-            for m, src in mods.items():
-                deps = [x.split('"')[1] for x in src.splitlines() if x.startswith("import")]
-                if m not in done and all(x in done for x in deps):
-                    order.append(m)
-                    done.add(m)
-        for m in order:
-            res = compile_src(mods[m], {"optimize": bool(opt)})
-            if not res.ok:
-                fails.append({"key": f"C14|linked|module-not-compiled|{name}", "linked": [name, opt], "source": mods[m], "expected": "compiles", "observed": res.cls() + " " + (res.msg or "")})
+        for phase, mods in enumerate([mods] + ([dict(mods, **second)] if second else [])):
+            done = set()
+            order = []
+            while len(order) < len(mods):          # dependency order: a module after everything it imports
+                for m, src in mods.items():
+                    deps = [x.split('"')[1] for x in src.splitlines() if x.startswith("import")]
+                    if m not in done and all(x in done for x in deps):
+                        order.append(m)
+                        done.add(m)
+            for m in order:
+                res = compile_src(mods[m], {"optimize": bool(opt)})
+                if not res.ok:
+                    fails.append({"key": f"C14|linked|module-not-compiled|{name}", "linked": [name, opt], "source": mods[m], "expected": "compiles", "observed": res.cls() + " " + (res.msg or "")})
+                    return n, fails
+                with open(m + ".nslir", "wb") as fh:
+                    pickle.dump(res.module, fh)
+            try:
+                lk = L.Linker()
+                lk.AddModule(L.FilesystemModuleLoader().Load(root))
+                program = lk.Link()
+            except BaseException as e:
+                fails.append({"key": f"C14|linked|link-fails|{name}", "linked": [name, opt], "source": repr(mods), "expected": "links", "observed": f"{type(e).__name__}: {e}"})
                 return n, fails
-            with open(m + ".nslir", "wb") as fh:
-                pickle.dump(res.module, fh)
-        try:
-            lk = L.Linker()
-            lk.AddModule(L.FilesystemModuleLoader().Load(root))
-            program = lk.Link()
-        except BaseException as e:
-            fails.append({"key": f"C14|linked|link-fails|{name}", "linked": [name, opt], "source": repr(mods), "expected": "links", "observed": f"{type(e).__name__}: {e}"})
-            return n, fails
-        for fn in program.Functions.values():
-            n += 1
-            for p in W.check_function(fn, program, L):
-                fails.append({"key": f"C14|linked|{p['kind']}|{p['where']}|{name}", "linked": [name, opt], "source": "\n---- ".join(f"{k}:\n{v}" for k, v in mods.items()),
-                              "expected": "every call names a function of the linked program", "observed": p["detail"]})
+            for fn in program.Functions.values():
+                n += 1
+                for p in W.check_function(fn, program, L):
+                    fails.append({"key": f"C14|linked|{p['kind']}|{p['where']}|{name}", "linked": [name, opt], "source": "\n---- ".join(f"{k}:\n{v}" for k, v in mods.items()),
+                                  "expected": "every call names a function of the linked program", "observed": p["detail"]})
     finally:
         os.chdir(old)
         shutil.rmtree(d, ignore_errors=True)
@@ -101,10 +116,10 @@ _family_run, _family_replay = run, replay
 
 def run(tier, seed):
     out = _family_run(tier, seed)
-    jobs = [(name, o) for name in LINKED for o in (0, 1)]
+    jobs = [(name, o) for name in list(LINKED) + list(LINKED_TWICE) for o in (0, 1)]
     m = 0
     seen = {f["key"] for f in out["failures"]}
-    for a, fl in pool.pmap(w_linked, jobs, hermetic=False):
+    for a, fl in pool.pmap(w_linked, jobs):     # hermetic: a loader cache must not travel from one job to another
         m += a
         for f in fl:
             out["coverage"]["failing_cases_per_key"][f["key"]] = out["coverage"]["failing_cases_per_key"].get(f["key"], 0) + 1
